@@ -1,0 +1,21 @@
+//go:build verif
+
+// Contracts for the YAML wrapper, checked by /verif/govc (comment-only; compiled only with -tags verif).
+package yaml
+
+//@ prelude c12
+
+//@ func (y *Yaml) IsFound() bool
+//@   requires y != nil
+//@   ensures [C12:found] result == (deref(y).data != nil)
+
+//@ func (y *Yaml) String() (string, error)
+//@   requires y != nil
+//@   ensures [C12:string-scalars-only] (result1 == nil) == (deref(y).data != nil && deref(deref(y).data).Kind == 8 && deref(deref(y).data).Tag == "!!str")
+//@   ensures [C12:value] result1 == nil ==> result0 == deref(deref(y).data).Value
+//@   ensures [C12:empty-on-error] result1 != nil ==> result0 == ""
+
+//@ func (y *Yaml) Get(key any) *Yaml
+//@   requires y != nil
+//@   ensures [C12:wrapper] result != nil
+//@   ensures-assumed [C15:A-GET] ref(deref(result).data) == yamlValueFor(ref(deref(y).data), key)
